@@ -195,18 +195,29 @@ func (t *throttler) Call() {
 		} else if t.trailing && !t.scheduled {
 			// Grant the trailing permission only once the current period is over.
 			t.scheduled = true
-			time.AfterFunc(t.duration-delta, func() {
-				t.cond.L.Lock()
-				defer t.cond.L.Unlock()
-
-				t.scheduled = false
-				if !t.stop {
-					t.waiting = true
-					t.cond.Broadcast()
-				}
-			})
+			time.AfterFunc(t.duration-delta, t.trail)
 		}
 	}
+}
+
+// trail is the callback of the trailing timer.
+func (t *throttler) trail() {
+	t.cond.L.Lock()
+	defer t.cond.L.Unlock()
+
+	t.scheduled = false
+	if t.stop || t.waiting {
+		return
+	}
+	// The timer may run late: when a permission has been handed out in the meantime
+	// a new period has begun, and the trailing permission has to wait for its end.
+	if delta := time.Since(t.last); delta < t.duration {
+		t.scheduled = true
+		time.AfterFunc(t.duration-delta, t.trail)
+		return
+	}
+	t.waiting = true
+	t.cond.Broadcast()
 }
 
 // Next returns true at most once per time period. It runs until the throttled function is not canceled.
